@@ -39,6 +39,17 @@ theorem shared_in_pool (r s : Range WfSemVer) (h : ∃ v, Mem v r ∧ Mem v s) :
     ∃ v ∈ WfSemVer.bot :: (r.endpoints ++ s.endpoints), Mem v r ∧ Mem v s :=
   C05.shared_in_pool WfSemVer.bot WfSemVer.bot_le r s h
 
+/-- A literal `0.0.0` lower bound is a bound like any other: the pre-releases of `0.0.0`
+precede it, so `from 0.0.0` is not "all versions" and `from 0.0.0 until b` is not `until b`
+(what an endpoint macro that "simplifies" such ranges gets wrong). -/
+theorem from_zero_is_a_bound :
+    let z : WfSemVer := ⟨{ major := 0, minor := 0, patch := 0, pre := [], build := [] }, by decide⟩
+    let p : WfSemVer := ⟨{ major := 0, minor := 0, patch := 0, pre := [['a','l','p','h','a']], build := [] }, by decide⟩
+    p < z ∧ ¬ Mem p (.from z) ∧ Mem p (.all : Range WfSemVer) ∧ Mem p (.until z) := by
+  intro z p
+  have h : p < z := by simp only [WfSemVer.lt_iff]; decide
+  exact ⟨h, by simp only [Mem]; exact not_le.2 h, trivial, h⟩
+
 -- non-vacuity: 1.0.0-alpha < 1.0.0 < 1.0.0+b as well-formed versions
 example :
     let a : WfSemVer := ⟨{ major := 1, minor := 0, patch := 0, pre := [['a','l','p','h','a']], build := [] }, by decide⟩
